@@ -103,6 +103,7 @@ template <class T, size_t N, size_t M> struct S {
     printf("rt %d %zu %zu %d", W, N, M, cls); dump(v); dump(old);
     printf(" => %d", ss.fail() ? 1 : 0); dump(b.obj()); printf("\n");
   }
+  bool few_cuts = false;
   template <class Obj> void seq(int cls, size_t cnt) {
     std::vector<std::vector<T>> vs, olds;
     for (size_t i = 0; i < cnt; i++) { vs.push_back(words((int)g.below(8))); olds.push_back(words(0)); }
@@ -113,6 +114,7 @@ template <class T, size_t N, size_t M> struct S {
     // read them back: whole stream (+ trailing bytes), and streams cut at a few places
     std::vector<size_t> cuts = {all.size(), all.size() + 3, NM * B, NM * B + 1, 2 * NM * B - 1, 0};
     for (int i = 0; i < (thorough() ? 12 : 3); i++) cuts.push_back(g.below(all.size()));
+    if (few_cuts) cuts = {all.size(), all.size() - 7};
     for (size_t cut : cuts) {
       std::string st = cut <= all.size() ? all.substr(0, cut) : all + random_bytes(cut - all.size());
       std::stringstream in(st, std::ios::in | std::ios::out | std::ios::binary);
@@ -220,6 +222,15 @@ template <class T, size_t N, size_t M> struct S {
 #endif
   }
   void all() { all_for<P>(0); all_for<PP>(1); }
+  // large objects (beyond any internal block size a chunked reader/writer might use, and not a multiple of it):
+  // round trip, two objects back to back with cuts, a stream cut just before the end
+  void big() {
+    few_cuts = true;
+    rt<P>(0, words(0), words(1));
+    rt<PP>(1, words(1), words(0));
+    seq<P>(0, 2);
+    { auto v = words(0); deser<PP>(1, words(1), raw_bytes(v).substr(0, NM * B - 5)); }
+  }
 };
 
 #ifndef CFG
@@ -231,6 +242,7 @@ int main() {
   if (CFG == 0 || CFG == -1) S<uint16_t, 8, 2>(g).all();
   if (CFG == 1 || CFG == -1) { S<uint32_t, 4, 3>(g).all(); S<uint32_t, 4, 1>(g).all(); }
   if (CFG == 2 || CFG == -1) { S<uint64_t, 4, 2>(g).all(); S<uint16_t, 4, 1>(g).all(); }
+  if (CFG == 2 || CFG == -1) { S<uint64_t, 4096, 3>(g).big(); }
   if ((CFG == 3 || CFG == -1) && thorough()) { S<uint64_t, 8, 4>(g).all(); S<uint32_t, 16, 2>(g).all(); }
   return 0;
 }
